@@ -10,6 +10,7 @@
 pub mod clock;
 pub mod net;
 pub mod sched;
+pub mod vtimer;
 pub mod common;
 pub mod parts;
 pub mod wire;
